@@ -134,6 +134,11 @@ def gen_rdms_spec(rng, n_rdm=(1, 6), n_cond=(3, 9), nan_prob=0.25, groupings=Tru
     if rng.chance(0.45):
         # a strictly increasing numeric descriptor held as ndarray (positions, onsets ...): unique and sorted
         spec['pat_desc']['pos'] = {'values': [10 * (i + 1) + 5 for i in range(nc)], 'container': 'array', 'kind': 'unique', 'type': 'int'}
+    if rng.chance(0.25):
+        # descriptors with one *row* per item (coordinates, feature vectors): 2-D arrays
+        spec['pat_desc']['xyz'] = {'values': [[float(u), u + 0.5] for u in cond_uids], 'container': 'array'}
+    if rng.chance(0.2):
+        spec['rdm_desc']['roi_xyz'] = {'values': [[float(u), u * 2.0, 1.0] for u in rdm_uids], 'container': 'array'}
     if dtypes:
         spec['dtype'] = rng.pick(['float64', 'float64', 'float64', 'int64', 'float32'])
     if rng.chance(nan_prob) and nc >= 4 and spec.get('dtype') != 'int64':
